@@ -10,5 +10,8 @@ CONSTANTS
 INVARIANT Tagged
 INVARIANT UserTemplateWins
 INVARIANT UserVolumeWins
+INVARIANT UserTemplateUnchanged
+INVARIANT DomainOKOnce
 INVARIANT ExportInv
+PROPERTY UserSticks
 CHECK_DEADLOCK FALSE
